@@ -194,11 +194,35 @@ func c7LazyNeverEager(c *Ctx, rule string) {
 	lazy := 0
 	var all []*ssa.Function
 	var addFn func(g *ssa.Function)
+	seenFn := map[*ssa.Function]bool{}
 	addFn = func(g *ssa.Function) {
+		if g == nil || seenFn[g] || len(seenFn) > 64 {
+			return
+		}
+		seenFn[g] = true
 		all = append(all, g)
 		for _, a := range g.AnonFuncs {
 			addFn(a)
 		}
+		// functions handed on as values (a method value lazyFields(fields).wrap, a named function) and the module
+		// functions called
+		AllInstrs(g, func(in ssa.Instruction) {
+			for _, op := range in.Operands(nil) {
+				if op == nil || *op == nil {
+					continue
+				}
+				switch x := (*op).(type) {
+				case *ssa.Function:
+					if x.Synthetic != "" || curProgRoot(x) {
+						addFn(x)
+					}
+				case *ssa.MakeClosure:
+					if f, ok := x.Fn.(*ssa.Function); ok {
+						addFn(f)
+					}
+				}
+			}
+		})
 	}
 	addFn(fn)
 	for _, g := range all {
